@@ -15,7 +15,7 @@ import (
 // params: hist (history leaving things pending), ctl (control program),
 // cons (consumer configuration), cap (Events capacity, -1 = NewWatcher).
 
-var CtlHists = []string{"idle", "mixed3", "burst6", "mvrm", "mvrmdir", "rmadd", "readerr", "shortread", "eof", "overflow"}
+var CtlHists = []string{"idle", "mixed3", "burst6", "mvrm", "mvrmdir", "rmadd", "readerr", "shortread", "eof", "overflow", "movein", "fresh"}
 var CtlCtls = []string{"close", "add-close", "remove-close", "list-close", "close||close", "close||add", "close||remove", "close||list", "add||remove", "list"}
 var CtlCons = []string{"none", "events", "errors", "both", "both-stop1", "both-stop2"}
 
@@ -70,8 +70,10 @@ func ctlScenario(p map[string]any) *Scenario {
 		if hist == "overflow" {
 			x.SubstitutePipe(w)
 		}
-		mustNil(x.Add(w, "w/f"))
-		mustNil(x.Add(w, "w/d"))
+		if hist != "fresh" { // "fresh": nothing was ever added, the control program's Add (if any) is the Watcher's first
+			mustNil(x.Add(w, "w/f"))
+			mustNil(x.Add(w, "w/d"))
+		}
 		switch cons {
 		case "events":
 			x.Consume(w, "consumer", ConsumerMode{Events: true})
@@ -85,7 +87,7 @@ func ctlScenario(p map[string]any) *Scenario {
 			x.Consume(w, "consumer", ConsumerMode{Events: true, Errors: true, StopAfter: 2})
 		}
 		switch hist {
-		case "idle":
+		case "idle", "fresh":
 		case "mixed3", "readerr", "shortread", "eof":
 			x.Chmod("w/f", 0o600)
 			x.Write("w/f", "y")
@@ -104,6 +106,13 @@ func ctlScenario(p map[string]any) *Scenario {
 		case "rmadd":
 			x.Rm("w/f")
 			x.Touch("w/f")
+		case "movein":
+			// a move in from an unwatched place (a cookie nobody stored), then renames with cookies
+			mustNil(os.Mkdir("w/o", 0o755))
+			mustNil(os.WriteFile("w/o/p", []byte("x"), 0o644))
+			x.Mv("w/o/p", "w/d/p")
+			x.Mv("w/d/p", "w/d/q")
+			x.Mv("w/d/a", "w/d/c")
 		case "overflow":
 			// wd 2 is w/d (second Add); the overflow marker sits between two genuine records
 			x.Inject(w, Rec{Wd: 2, Mask: 0x100, Name: "n1"}, Rec{Wd: -1, Mask: 0x4000}, Rec{Wd: 2, Mask: 0x100, Name: "n2"})
